@@ -245,6 +245,14 @@ def r_acct(F, V):
                 if "items" not in sub_loads:
                     continue
                 key = "%s|growth_left=cap-items" % p
+                # (k) `capacity - items` counts every non-FULL slot as free room, which is only true if none of them is a
+                # tombstone: a body that recomputes growth_left this way must not leave DELETED bytes behind
+                dels = [j for j, t in body.calls() if (callee_path(t) or "").endswith("RawTableInner::set_ctrl") and len(t["args"]) >= 3
+                        and t["args"][2]["k"] == "const" and t["args"][2].get("val") == 128]
+                if dels:
+                    R.violation("%s|growth_left=cap-items|tombstone" % p, body, "growth_left is recomputed as capacity - items in a body that also writes DELETED control bytes: the tombstones are counted as free room, "
+                                "so inserts use up the last EMPTY bytes and a probe for an absent key never terminates", line=line_of(body, bb=dels[0]))
+                    R.inst("%s|growth_left=cap-items|tombstone" % p, "DELETED written where growth_left = capacity - items", "violation", True, where(body, bb=dels[0]))
                 if minuend is None:
                     R.inst(key, "growth_left -= items on a freshly sized table", "ok", True, where(body, stmt=gs))
                     continue
